@@ -140,26 +140,26 @@ def strip_comments(src):
     return ''.join(out)
 
 
-def check_props(pid):
+def check_props_file(pid, stem):
     """Rebuild props/<pid>.vo, forcing recompilation so that Print Assumptions output is captured.
     Returns dict(theorems=[names], discharged=[names], broken=[(name, why)], log=str, cmd=str)."""
-    pf = 'props/%s.v' % pid
+    pf = 'props/%s.v' % stem
     src = strip_comments(open(os.path.join(COQ, pf), encoding='utf-8').read())
     names = re.findall(r'^\s*(?:Theorem|Lemma|Corollary|Example)\s+([A-Za-z0-9_\']+)', src, re.M)
     printed = re.findall(r'^\s*Print\s+Assumptions\s+([A-Za-z0-9_\'.]+)\s*\.', src, re.M)
     res = {'theorems': names, 'discharged': [], 'broken': [], 'log': '',
-           'cmd': 'cd /verif/coq && make -j16 props/%s.vo  (coqc 8.16.1, full .vo build)' % pid}
+           'cmd': 'cd /verif/coq && make -j16 props/%s.vo  (coqc 8.16.1, full .vo build)' % stem}
     for n in names:
         if n not in printed:
             res['broken'].append((n, 'no Print Assumptions for this theorem in ' + pf))
     # proofs must be closed with Qed (no Admitted/Abort) — Admitted is caught by scan_forbidden as well
-    vo = os.path.join(COQ, 'props/%s.vo' % pid)
+    vo = os.path.join(COQ, 'props/%s.vo' % stem)
     for ext in ('.vo', '.vok', '.vos', '.glob'):
         try:
             os.remove(vo[:-3] + ext)
         except OSError:
             pass
-    ok, out = coq_make(['props/%s.vo' % pid])
+    ok, out = coq_make(['props/%s.vo' % stem])
     res['log'] = out
     if not ok:
         m = re.search(r'File "([^"]+)", line (\d+)[^\n]*\n((?:.*\n){0,12})', out)
@@ -208,6 +208,24 @@ def check_props(pid):
             res['broken'].append((n, 'depends on non-allow-listed axioms: ' + ', '.join(bad)))
         elif n in names and not any(b[0] == n for b in res['broken']):
             res['discharged'].append(n)
+    return res
+
+
+def check_props(pid):
+    """All property files of pid: props/<pid>.v and props/<pid>_*.v."""
+    stems = sorted(f[:-2] for f in os.listdir(COQ + '/props')
+                   if f.endswith('.v') and (f == pid + '.v' or f.startswith(pid + '_')))
+    res = {'theorems': [], 'discharged': [], 'broken': [], 'log': '', 'axioms': {},
+           'cmd': 'cd /verif/coq && make -j16 %s  (coqc 8.16.1, full .vo build, Print Assumptions parsed)' % ' '.join(
+               'props/%s.vo' % s for s in stems)}
+    if not stems:
+        res['broken'].append((pid, 'no props file'))
+    for st in stems:
+        r = check_props_file(pid, st)
+        for k in ('theorems', 'discharged', 'broken'):
+            res[k].extend(r[k])
+        res['axioms'].update(r.get('axioms', {}))
+        res['log'] += r['log']
     return res
 
 
